@@ -131,7 +131,15 @@ func init() {
 		if !ok || sv.Base == nil {
 			return nil, false
 		}
-		t := sym.App(sym.Bytes, "be64bytes", tm(ex, c, 2))
+		w := tm(ex, c, 2)
+		var t *sym.Term
+		if w.IsConst() && w.C.Sign() >= 0 && w.C.BitLen() <= 64 {
+			var b [8]byte
+			w.C.FillBytes(b[:])
+			t = sym.ConstStr(sym.Bytes, string(b[:]))
+		} else {
+			t = sym.App(sym.Bytes, "be64bytes", w)
+		}
 		sym.SetBytesLen(t, 8)
 		ex.WriteBytes(c.St, sv.Base, t, 8)
 		return nil, true
